@@ -159,6 +159,37 @@ func TestVerifC03(t *testing.T) {
 	}
 	_ = seeds
 	gen.RobustInputs(r.Thorough(), try)
+	// path shapes under path guessing: tails that exist under the local Go root / GOPATH
+	// behind every kind of prefix, scanned with GuessPaths on
+	if r.Shard == 0 {
+		goroot := runtime.GOROOT()
+		for _, rel := range []string{"fmt/print.go", "net/http/server.go", "runtime/proc.go"} {
+			for _, pre := range []string{"", "/", "x", "/x", "/x/src", "/x/srcs", "/src", "src", "/a/b/c/d", "C:", "C:/go/src", "//", "/pkg/mod", "/x/pkg/mod", "/x/pkg", "/s", "/sr", "/srcx", "\\x\\src"} {
+				for _, mid := range []string{"/", "/src/", "/pkg/mod/", "//"} {
+					pth := pre + mid + rel
+					in := []byte("goroutine 1 [running]:\nfmt.Println(0x1)\n\t" + pth + ":10 +0x1\nmain.main()\n\t/x/y/main.go:3 +0x2\n")
+					key := "path-shape " + pth
+					v := r.Check(func() *h.Viol {
+						for _, opts := range []*Opts{{GuessPaths: true, LocalGOROOT: goroot, LocalGOPATHs: []string{goroot}}, {GuessPaths: true, AnalyzeSources: true, NameArguments: true, LocalGOROOT: goroot, LocalGOPATHs: []string{goroot + "/src", "/"}}} {
+							res := scanOnce(bytes.NewReader(in), opts)
+							if res.panicked != "" {
+								vv := &h.Viol{Fingerprint: "C03/panic:" + firstLine(res.panicked) + "@" + panicSite(res.panicked), Summary: "ScanSnapshot with path guessing panicked on source path " + pth + ": " + firstLine(res.panicked), Key: key, Kind: "input"}
+								vv.SetInput(in)
+								return vv
+							}
+						}
+						return nil
+					})
+					o := "ok"
+					if v != nil {
+						o = v.Fingerprint
+					}
+					r.Record(key, true, o)
+					r.Add("inputs_path-shape", 1)
+				}
+			}
+		}
+	}
 	if r.Shard == 0 {
 		growthCheck(r)
 	}
